@@ -14,6 +14,7 @@ import (
 // Lexer tokenizes ClickHouse SQL input.
 type Lexer struct {
 	reader *bufio.Reader
+	source *errorTrackingReader
 	ch     rune   // current character
 	pos    token.Position
 	eof    bool
@@ -29,12 +30,35 @@ type Item struct {
 
 // New creates a new Lexer from an io.Reader.
 func New(r io.Reader) *Lexer {
+	source := &errorTrackingReader{r: r}
 	l := &Lexer{
-		reader: bufio.NewReader(r),
+		reader: bufio.NewReader(source),
+		source: source,
 		pos:    token.Position{Offset: 0, Line: 1, Column: 0},
 	}
 	l.readChar()
 	return l
+}
+
+// errorTrackingReader remembers the first error other than io.EOF returned by
+// the underlying reader, so that a failed read is not mistaken for end of input.
+type errorTrackingReader struct {
+	r   io.Reader
+	err error
+}
+
+func (e *errorTrackingReader) Read(p []byte) (int, error) {
+	n, err := e.r.Read(p)
+	if err != nil && err != io.EOF && e.err == nil {
+		e.err = err
+	}
+	return n, err
+}
+
+// Err returns the first error other than io.EOF returned by the underlying
+// reader, or nil if reading has not failed.
+func (l *Lexer) Err() error {
+	return l.source.err
 }
 
 func (l *Lexer) readChar() {
